@@ -132,7 +132,7 @@ def gen_reply_case(rnd, prev_key16):
     key16 = bytes(bytearray(rnd.getrandbits(8) for _ in range(16)))
     good = digest(key16)
     kind = rnd.choice(["good", "good", "good", "status", "no_upgrade", "bad_upgrade", "no_accept", "wrong_accept", "accept_other_key", "accept_prev_key",
-                       "accept_case", "accept_trunc", "accept_extra", "big_terminated", "big_unterminated", "garbage"])
+                       "accept_case", "accept_trunc", "accept_extra", "accept_8bit", "upgrade_8bit", "big_terminated", "big_unterminated", "garbage"])
     status = b"101"
     headers = [(b"Upgrade", rnd.choice([b"websocket", b"WebSocket", b"WEBSOCKET"])), (b"Connection", b"Upgrade"), (b"Sec-WebSocket-Accept", good),
                (b"Server", b"unit test"), (b"X-Pad", b"a, b;c=d")]
@@ -144,7 +144,10 @@ def gen_reply_case(rnd, prev_key16):
         headers.append((b"Sec-WebSocket-Protocol", proto))
     if rnd.random() < 0.3:
         ext = True
-        headers.append((b"Sec-WebSocket-Extensions", rnd.choice([b"permessage-deflate", b"permessage-deflate; server_max_window_bits=12", b"permessage-deflate; client_no_context_takeover; client_max_window_bits=10"])))
+        from . import c06
+        headers.append((b"Sec-WebSocket-Extensions", rnd.choice([b"permessage-deflate", b"permessage-deflate; server_max_window_bits=12", b"permessage-deflate; client_no_context_takeover; client_max_window_bits=10",
+                                                                  c06.ext_header(rnd, rnd.choice([9, 12, 15]), rnd.choice([10, 15]), rnd.random() < 0.5, rnd.random() < 0.5),
+                                                                  b"permessage-deflate ; server_max_window_bits=12", b"permessage-deflate\t; client_max_window_bits = 11"])))
     if rnd.random() < 0.2:
         headers.append((b"X-Dup", b"1"))
         headers.append((b"X-Dup", b"2"))
@@ -162,6 +165,15 @@ def gen_reply_case(rnd, prev_key16):
         expect = "rejected"
     elif kind == "no_accept":
         headers = [h for h in headers if h[0] != b"Sec-WebSocket-Accept"]
+        expect = "rejected"
+    elif kind == "upgrade_8bit":
+        # bytes that are not ASCII inside a header value are not "nothing"
+        headers = [(n, rnd.choice([b"web\xe2\x80\x8bsocket", b"websocket\xa0", b"\xffwebsocket"])) if n == b"Upgrade" else (n, v) for n, v in headers]
+        expect = "rejected"
+    elif kind == "accept_8bit":
+        k = rnd.randrange(0, len(good) + 1)
+        bad = good[:k] + rnd.choice([b"\xe2\x80\x8b", b"\xa0", b"\xff", b"\xc3\xa9"]) + good[k:]
+        headers = [(n, bad) if n == b"Sec-WebSocket-Accept" else (n, v) for n, v in headers]
         expect = "rejected"
     elif kind in ("wrong_accept", "accept_other_key", "accept_prev_key", "accept_trunc", "accept_extra", "accept_case"):
         if kind == "wrong_accept":
